@@ -55,6 +55,8 @@ pub enum OOp {
     Getxattr(Vec<u8>, u8),
     Listxattr(Vec<u8>),
     Removexattr(Vec<u8>, u8),
+    /// open(sel: RDONLY/RDWR/WRONLY) + SETATTR carrying the handle (fchmod / futimens / ftruncate) + release
+    FSetattr(Vec<u8>, u8, u8, u16),
 }
 
 #[derive(Clone, Debug, Serialize, Deserialize, PartialEq)]
@@ -459,7 +461,7 @@ fn apply(ov: &Ov, out: &mut Outcome, op: &OOp, has_upper: bool, lower_has: &dyn 
         OOp::Link(a, b) => vec![a, b],
         OOp::Getattr(a) | OOp::Read(a) | OOp::Readlink(a) | OOp::Mknod(a) | OOp::Unlink(a) | OOp::Rmdir(a) | OOp::Utimens(a) | OOp::Listxattr(a) => vec![a],
         OOp::Create(a, _) | OOp::Mkdir(a, _) | OOp::Symlink(a, _) | OOp::Chmod(a, _) | OOp::Truncate(a, _) | OOp::Setxattr(a, _) | OOp::Getxattr(a, _) | OOp::Removexattr(a, _) => vec![a],
-        OOp::Write(a, ..) => vec![a],
+        OOp::Write(a, ..) | OOp::FSetattr(a, ..) => vec![a],
     };
     for p in operands {
         for i in 1..p.len() {
@@ -662,6 +664,37 @@ fn apply(ov: &Ov, out: &mut Outcome, op: &OOp, has_upper: bool, lower_has: &dyn 
             cmp(out, "truncate", rep.error, host, true);
             (true, lower_has(p))
         }
+        OOp::FSetattr(p, sel, what, v) => {
+            let Ok((id, a)) = ov.resolve(p) else { return (false, false) };
+            if a.mode & libc::S_IFMT != libc::S_IFREG {
+                return (false, false);
+            }
+            let oflags = [libc::O_RDONLY, libc::O_RDWR, libc::O_WRONLY][*sel as usize % 3];
+            // ftruncate(fd) needs a writable descriptor; fchmod/futimens work on any
+            let what = if oflags == libc::O_RDONLY { *what % 2 } else { *what % 3 };
+            if oflags != libc::O_RDONLY && !has_upper {
+                return (false, false);
+            }
+            let o = call(&ov.srv, &mkreq("OPEN", id, 0, 0, &[("flags", oflags as u64)], &[], &[]));
+            if o.error != 0 {
+                return (oflags != libc::O_RDONLY, lower_has(p));
+            }
+            let fh = get(&o.body, 0, "fuse_open_out", "fh");
+            let m = (*v as u32 & 0o777) | 0o600;
+            let (valid, host): (u64, Result<(), i32>) = match what {
+                0 => (c("FATTR_MODE"), host_if_upper(&|| sys::chmod_path(refp(p).as_bytes(), m))),
+                1 => (c("FATTR_MTIME") | c("FATTR_ATIME"), host_if_upper(&|| Ok(()))),
+                _ => (c("FATTR_SIZE"), host_if_upper(&|| sys::openat(libc::AT_FDCWD, refp(p).as_bytes(), libc::O_WRONLY, 0).and_then(|f| sys::ftruncate(sys::raw(&f), *v as i64 % 9000)))),
+            };
+            let rep = call(
+                &ov.srv,
+                &mkreq("SETATTR", id, 0, 0, &[("valid", valid | c("FATTR_FH")), ("fh", fh), ("mode", m as u64), ("size", *v as u64 % 9000), ("mtime", 1000), ("atime", 1000)], &[], &[]),
+            );
+            cmp(out, "fsetattr", rep.error, host, true);
+            let _ = call(&ov.srv, &mkreq("RELEASE", id, 0, 0, &[("fh", fh)], &[], &[]));
+            out.class(format!("fsetattr:{}", ["rdonly", "rdwr", "wronly"][*sel as usize % 3]));
+            (true, lower_has(p))
+        }
         OOp::Utimens(p) => {
             let Ok((id, a)) = ov.resolve(p) else { return (false, false) };
             if a.mode & libc::S_IFMT == libc::S_IFLNK {
@@ -849,6 +882,7 @@ fn opname(op: &OOp) -> &'static str {
         OOp::Getxattr(..) => "getxattr",
         OOp::Listxattr(_) => "listxattr",
         OOp::Removexattr(..) => "removexattr",
+        OOp::FSetattr(..) => "fsetattr",
     }
 }
 
@@ -889,6 +923,7 @@ pub fn op_strategy(rewrite_heavy: bool) -> BoxedStrategy<OOp> {
         1 => (p(), any::<u8>()).prop_map(|(a, k)| OOp::Getxattr(a, k)),
         1 => p().prop_map(OOp::Listxattr),
         1 => (p(), any::<u8>()).prop_map(|(a, k)| OOp::Removexattr(a, k)),
+        3 => (p(), 0u8..3, 0u8..3, any::<u16>()).prop_map(|(a, s, w, v)| OOp::FSetattr(a, s, w, v)),
     ]
     .boxed()
 }
